@@ -269,19 +269,22 @@ def validate_episodes(c, module, trace, describe, canary, label, workers=8, time
     return recs, eps, r, idx
 
 
-def split_trace(path, max_events=120000):
-    """Split an ndjson trace into shard files at episode boundaries (records with "k":0 start an episode) without loading it.
+def split_trace(path, max_events=120000, max_bytes=80 << 20):
+    """Split an ndjson trace into shard files at episode boundaries (records with "k":0 start an episode) without loading it;
+    a shard ends at the first boundary after max_events records or max_bytes bytes (TLC holds the parsed shard in memory).
     Returns [(shard path, first record index, record count)]."""
     shards = []
     out = None
     count = 0
     start = 0
     total = 0
+    nbytes = 0
     with open(path) as f:
         for ln in f:
             if not ln.strip():
                 continue
-            if out is None or (count >= max_events and ln.startswith('{"k":0,')):
+            if out is None or ((count >= max_events or nbytes >= max_bytes) and ln.startswith('{"k":0,')):
+                nbytes = 0
                 if out is not None:
                     out.close()
                     shards.append((out.name, start, count))
@@ -289,6 +292,7 @@ def split_trace(path, max_events=120000):
                 out = open("%s.shard%d" % (path, len(shards)), "w")
                 count = 0
             out.write(ln)
+            nbytes += len(ln)
             count += 1
             total += 1
     if out is not None:
